@@ -1,6 +1,6 @@
 """C10 - full-state tomography reconstructs exactly (necessary structural conditions)."""
 from ..rules_flow import Flow
-from ..rules_tomo import B1_B2_counts, W_fitter, W3_indexing, S2_estimator, S3_normalisation, W1_W2_builders
+from ..rules_tomo import W14_returns, B1_B2_counts, W_fitter, W3_indexing, S2_estimator, S3_normalisation, W1_W2_builders
 
 
 def run(tree, rep, tier):
@@ -9,6 +9,7 @@ def run(tree, rep, tier):
     B1_B2_counts(rep, flow, want=("B1",))
     W1_W2_builders(rep, flow, want=("W2",), builders=["tomography.full_state_tomography_circuits"])
     W3_indexing(rep, flow)
+    W14_returns(rep, flow)
     W_fitter(rep, flow, want=("W4", "W5", "S1"))
     S2_estimator(rep, flow)
     S3_normalisation(rep, flow)
